@@ -11,15 +11,15 @@ Proof. exact (PadToken.parse_number_two_zeros w). Qed.
 Print Assumptions parse_number_two_zeros.
 
 (* ... and is the same TOKEN for the parser wherever a literal is used: a value, the arity of a call word, the position of an argument reference (the bare markers excepted: padding them makes ㅎ+0 / ㅇ+0) *)
-Theorem padded_word_same_token c rest m stk :
-  ((c =? HIEUH) || (c =? IEUNG) = true -> rest <> []) ->
+Theorem padded_word_same_token (c:N) rest m stk :
+  (N.eqb c HIEUH || N.eqb c IEUNG = true -> rest <> []) ->
   parse_token ((c :: rest) ++ [G; G], m) stk = parse_token (c :: rest, m) stk.
 Proof. exact (PadToken.padded_word_same_token c rest m stk). Qed.
 Print Assumptions padded_word_same_token.
 
 (* ... so padding one word anywhere in a text leaves the parser's result unchanged - the trees, or the rejection *)
-Theorem padded_word_same_trees c rest m :
-  ((c =? HIEUH) || (c =? IEUNG) = true -> rest <> []) ->
+Theorem padded_word_same_trees (c:N) rest m :
+  (N.eqb c HIEUH || N.eqb c IEUNG = true -> rest <> []) ->
   forall ts1 ts2 stk, parse_tokens (ts1 ++ ((c :: rest) ++ [G; G], m) :: ts2) stk = parse_tokens (ts1 ++ (c :: rest, m) :: ts2) stk.
 Proof. exact (PadToken.padded_word_same_trees c rest m). Qed.
 Print Assumptions padded_word_same_trees.
